@@ -1,7 +1,442 @@
-//! Black-box / two-thread parts of the monitors (filled in below).
-use crate::ev::Run;
+//! Black-box / two-thread parts of monitors whose main body is in-process:
+//! C09 (measured delay), C07 (schedules clause), C18 (real transcripts), C10 (real handler).
 
-pub fn c09_timed(_run: &mut Run) {}
-pub fn c07_schedules(_run: &mut Run) {}
-pub fn c18_blackbox(_run: &mut Run) {}
-pub fn c10_blackbox(_run: &mut Run, _lost: &[crate::oracle::Pos]) {}
+use super::c03::{run_parallel, session_roots, FAILPOINT_SETS};
+use super::c08::{solo_confirm, SlowCase, OVERHEAD_MS};
+use super::c10::{compare_table, rich_history};
+use super::rules_driver::truncate;
+use super::searchlib::*;
+use crate::bb::{self, Dir, SpawnOpts};
+use crate::ev::{Acc, Run, Tier};
+use crate::glue::*;
+use crate::oracle::*;
+use crate::rng::{hash64, Rng};
+use crate::sess::*;
+use crate::zobrist::ZobristHasher;
+use serde_json::json;
+use std::collections::HashMap;
+use std::time::Duration;
+
+fn slice_args(stm: Color, ms: u32, rng: &mut Rng) -> String {
+    let clock = 100 + (ms as f64 / 0.8).round() as u64;
+    let (mine, theirs) = if stm == Color::White { ("wtime", "btime") } else { ("btime", "wtime") };
+    match rng.below(3) {
+        0 => format!("{} {} movestogo 1", mine, clock),
+        1 => format!("{} 1000000000 {} {} movestogo 1", theirs, mine, clock),
+        _ => format!("{} {} {} 5 movestogo 1 {}inc 100000", mine, clock, theirs, if stm == Color::White { "b" } else { "w" }),
+    }
+}
+
+// ------------------------------------------------------------------------------------------------
+// C09: measured go -> bestmove delay against the plan
+// ------------------------------------------------------------------------------------------------
+
+pub fn c09_timed(run: &mut Run) {
+    let tier = run.tier;
+    let seed = run.seed;
+    let plain = match bb::build_plain() {
+        Ok(b) => b,
+        Err(e) => {
+            run.acc.inconclusive.push(e);
+            return;
+        }
+    };
+    let roots = session_roots(seed ^ 9, 60);
+    let sessions = tier.pick(16usize, 200);
+    let per_session = tier.pick(12usize, 25);
+    let res = run_parallel(8, sessions, |sid| {
+        let mut acc = Acc::new();
+        let mut slow: Vec<SlowCase> = Vec::new();
+        let mut rng = Rng::stream(seed, 0xC09_0000 + sid as u64);
+        let mut s = match Sess::start(&plain, SpawnOpts::default(), false) {
+            Ok(s) => s,
+            Err(e) => {
+                acc.inconclusive.push(format!("session start failed: {}", e));
+                return (acc, slow);
+            }
+        };
+        for i in 0..per_session {
+            let h = &roots[rng.below(roots.len() as u64) as usize];
+            s.position(h);
+            let ms = match rng.below(4) {
+                0 => 0,
+                1 => 1 + rng.below(10) as u32,
+                2 => 10 + rng.below(90) as u32,
+                _ => 100 + rng.below(150) as u32,
+            };
+            let args = if ms == 0 { String::new() } else { slice_args(h.end.stm, ms, &mut rng) };
+            let mut g = s.go(&args, WATCHDOG);
+            acc.evaluations += 1;
+            let lat = match g.latency_ms() {
+                Some(l) => l,
+                None => {
+                    acc.inconclusive.push(format!("timed go not answered: {} / {}", h.command(), g.args));
+                    return (acc, slow);
+                }
+            };
+            s.settle(&mut g, WATCHDOG);
+            if g.plan_ms > 0 {
+                acc.distinct.insert(hash64(&format!("timed|{}|{}|{}|{}", h.command(), g.args, sid, i)));
+                acc.feature("timed_go_measured");
+            }
+            acc.max("max_overhead_ms_x10", ((lat - g.plan_ms as f64).max(0.0) * 10.0) as u64);
+            if sid == 0 && i < 2 {
+                acc.sample(json!({"go": g.args, "plan_ms": g.plan_ms as u64, "measured_ms": (lat * 100.0).round() / 100.0}));
+            }
+            if lat < g.plan_ms as f64 - 1.0 {
+                acc.violation(
+                    format!("C09|early|{}|{}", h.end.to_fen(), g.args),
+                    format!("'{}' on {} was answered after {:.2} ms although the plan is {} ms", g.args, h.end.to_fen(), lat, g.plan_ms),
+                    json!({"kind": "session", "property": "C09", "script": [h.command(), g.args]}),
+                );
+            }
+            if lat > g.plan_ms as f64 + OVERHEAD_MS {
+                slow.push(SlowCase { position_cmd: h.command(), go_args: g.args.clone(), plan_ms: g.plan_ms, latency_ms: lat, mode: "plain_par8".into() });
+            }
+        }
+        (acc, slow)
+    });
+    let mut slow_all = Vec::new();
+    for (a, sl) in res {
+        run.acc.merge(a, &["max_overhead_ms_x10"]);
+        slow_all.extend(sl);
+    }
+    let mut outliers = Vec::new();
+    for c in slow_all.iter().take(10) {
+        let lats = solo_confirm(&plain, c);
+        outliers.push(json!({"go": c.go_args, "plan_ms": c.plan_ms as u64, "latency_ms": c.latency_ms, "solo_latencies_ms": lats}));
+        if !lats.is_empty() && lats.iter().all(|l| *l > c.plan_ms as f64 + OVERHEAD_MS) {
+            run.acc.violation(
+                format!("C09|late|{}|{}", c.position_cmd, c.go_args),
+                format!("'{}' after '{}' answered {:.0} ms after the go (plan {} ms); three solo re-runs: {:?} ms", c.go_args, truncate(&c.position_cmd, 120), c.latency_ms, c.plan_ms, lats),
+                json!({"kind": "session", "property": "C09", "script": [c.position_cmd, c.go_args]}),
+            );
+        }
+    }
+    run.set("slow_outliers", json!(outliers));
+    run.set("slow_outliers_total", json!(slow_all.len()));
+}
+
+// ------------------------------------------------------------------------------------------------
+// C07: schedules clause - nothing panics when the deadline falls between the search thread's
+// clock test and its send (hooked binary, failpoints stretch that window)
+// ------------------------------------------------------------------------------------------------
+
+pub fn c07_schedules(run: &mut Run) {
+    let tier = run.tier;
+    let seed = run.seed;
+    let hooked = match bb::build_hooked() {
+        Ok(b) => b,
+        Err(e) => {
+            run.acc.inconclusive.push(e);
+            return;
+        }
+    };
+    let roots = session_roots(seed ^ 7, 60);
+    let sessions = tier.pick(24usize, 240);
+    let per_session = tier.pick(12usize, 25);
+    let res = run_parallel(16, sessions, |sid| {
+        let mut acc = Acc::new();
+        let mut rng = Rng::stream(seed, 0xC07_0000 + sid as u64);
+        let fp = ["search_before_send=4000", "search_before_send=2000,io_loop_top=1500", "search_before_send=6000,search_root_move=300", FAILPOINT_SETS[5]][sid % 4];
+        let mut opts = SpawnOpts::default();
+        opts.env.push(("WALLEYE_VERIF_FP".into(), format!("{};seed={};prob=80", fp, seed.wrapping_add(sid as u64))));
+        let mut s = match Sess::start(&hooked, opts, true) {
+            Ok(s) => s,
+            Err(e) => {
+                acc.inconclusive.push(format!("session start failed: {}", e));
+                return acc;
+            }
+        };
+        for _ in 0..per_session {
+            let h = &roots[rng.below(roots.len() as u64) as usize];
+            s.position(h);
+            let ms = 2 + rng.below(30) as u32;
+            let mut g = s.go(&slice_args(h.end.stm, ms, &mut rng), WATCHDOG);
+            if g.bestmove.is_none() {
+                acc.inconclusive.push("schedules: go not answered".into());
+                break;
+            }
+            s.settle(&mut g, WATCHDOG);
+            // give a delayed search thread time to reach its send after the receiver is gone
+            s.eng.drain(Duration::from_millis(8));
+        }
+        s.eng.send("quit");
+        let _ = s.eng.wait_exit(Duration::from_secs(3));
+        let recs = s.read_log();
+        let gos = analyse_log(&recs);
+        for g in &gos {
+            acc.evaluations += 1;
+            acc.count("schedule_runs_gos", 1);
+            // a send logged after the poll loop was left = the window in which the receiver may be gone
+            let late_send = match g.loop_exit {
+                Some(t) => g.sends.iter().any(|s| s.0 > t),
+                None => false,
+            };
+            if late_send {
+                acc.feature("send_after_deadline_seen_by_io_thread");
+                acc.distinct.insert(hash64(&format!("late|{}|{}", sid, g.signature)));
+            }
+            if g.search_panicked {
+                acc.violation(
+                    format!("C07|search-thread-panic|{}", g.root.as_ref().map(|r| r.to_fen()).unwrap_or_default()),
+                    format!("the search thread panicked (root {}, slice {:?} ms, interleaving [{}]): its send found the receiver already dropped after the I/O thread saw the deadline; stderr: {}", g.root.as_ref().map(|r| r.to_fen()).unwrap_or_default(), g.slice_ms, g.signature, truncate(&s.eng.stderr_text(), 200)),
+                    json!({"kind": "session", "property": "C07", "failpoints": fp, "interleaving": g.signature}),
+                );
+            }
+        }
+        if let Some(err) = s.stderr_has_panic() {
+            if !gos.iter().any(|g| g.search_panicked) {
+                acc.violation(format!("C07|stderr-panic|{}", sid), format!("'panicked' on stderr of the engine under delayed sends: {}", truncate(&err, 300)), json!({"kind": "session", "property": "C07", "failpoints": fp}));
+            }
+        }
+        acc
+    });
+    for a in res {
+        run.acc.merge(a, &[]);
+    }
+}
+
+// ------------------------------------------------------------------------------------------------
+// C18: info lines of real transcripts
+// ------------------------------------------------------------------------------------------------
+
+pub fn check_transcript_lines(lines: &[String], root: &Pos, ctx: &str, acc: &mut Acc) {
+    let legal = legal_moves(root);
+    let mut last_depth = 0u64;
+    let mut last_key: Option<(u64, i64)> = None;
+    for l in lines {
+        acc.evaluations += 1;
+        let case = json!({"kind": "transcript_line", "property": "C18", "context": ctx, "root_fen": root.to_fen(), "line": l});
+        let tag = format!("{}|{}", root.to_fen(), truncate(l, 60));
+        match parse_info(l, true) {
+            Err(why) => acc.violation(format!("C18|form|{}", tag), format!("malformed info line {:?} ({}) on {}", l, why, root.to_fen()), case),
+            Ok(info) => {
+                let key = score_key(&info.score);
+                if matches!(info.score, Score::Cp(x) if x.abs() >= SENTINEL as i64) || key.abs() > MATE as i64 {
+                    acc.violation(format!("C18|sentinel|{}", tag), format!("{}: score outside the mate range (aborted-search sentinel leaked): {:?}", root.to_fen(), l), case.clone());
+                }
+                if info.depth < 1 || info.depth < last_depth {
+                    acc.violation(format!("C18|depth|{}", tag), format!("{}: depth {} after depth {}: {:?}", root.to_fen(), info.depth, last_depth, l), case.clone());
+                }
+                if info.score == Score::Mate(0) {
+                    acc.violation(format!("C18|mate0|{}", tag), format!("{}: 'mate 0': {:?}", root.to_fen(), l), case.clone());
+                }
+                match parse_mv(&info.pv[0]) {
+                    Some(m) if legal.iter().any(|x| x.from == m.from && x.to == m.to) => {}
+                    _ => acc.violation(format!("C18|pv|{}", tag), format!("{}: first PV move {} is not legal in the searched position: {:?}", root.to_fen(), info.pv[0], l), case.clone()),
+                }
+                if let Some((d, prev)) = last_key {
+                    if d == info.depth && key <= prev {
+                        acc.violation(format!("C18|monotone|{}", tag), format!("{}: within depth {} the score did not strictly increase ({} after {}): {:?}", root.to_fen(), d, key, prev, l), case.clone());
+                    }
+                }
+                if matches!(info.score, Score::Mate(_)) {
+                    acc.feature("mate_line_blackbox");
+                }
+                last_depth = last_depth.max(info.depth);
+                last_key = Some((info.depth, key));
+            }
+        }
+    }
+}
+
+pub fn c18_blackbox(run: &mut Run) {
+    let tier = run.tier;
+    let seed = run.seed;
+    let plain = match bb::build_plain() {
+        Ok(b) => b,
+        Err(e) => {
+            run.acc.inconclusive.push(e);
+            return;
+        }
+    };
+    let mut roots = session_roots(seed ^ 18, 80);
+    for fen in ["7k/8/4K3/8/8/8/8/6Q1 w - -", "6k1/5ppp/8/8/8/8/5PPP/3R2K1 w - -", "7k/5K2/8/8/8/8/8/6Q1 b - -", "8/8/8/3k4/8/3K4/3R4/8 w - -"] {
+        let p = Pos::parse_fen(fen).unwrap();
+        roots.push(History { start: p.clone(), moves: vec![], end: p });
+    }
+    let sessions = tier.pick(16usize, 160);
+    let per_session = tier.pick(16usize, 32);
+    let res = run_parallel(16, sessions, |sid| {
+        let mut acc = Acc::new();
+        let mut rng = Rng::stream(seed, 0xC18_0000 + sid as u64);
+        let mut s = match Sess::start(&plain, SpawnOpts::default(), false) {
+            Ok(s) => s,
+            Err(e) => {
+                acc.inconclusive.push(format!("session start failed: {}", e));
+                return acc;
+            }
+        };
+        for i in 0..per_session {
+            let h = &roots[rng.below(roots.len() as u64) as usize];
+            s.position(h);
+            let ms = 3 + rng.below(60) as u32;
+            let mut g = s.go(&slice_args(h.end.stm, ms, &mut rng), WATCHDOG);
+            if g.bestmove.is_none() {
+                acc.inconclusive.push("blackbox go not answered".into());
+                break;
+            }
+            s.settle(&mut g, WATCHDOG);
+            if !g.info_lines.is_empty() {
+                acc.distinct.insert(hash64(&format!("bb|{}|{}|{}", h.command(), sid, i)));
+                acc.feature("blackbox_go_with_lines");
+            }
+            if sid == 0 && i == 0 {
+                acc.sample(json!({"blackbox_go": g.args, "root": h.end.to_fen(), "lines": g.info_lines.iter().take(3).collect::<Vec<_>>()}));
+            }
+            check_transcript_lines(&g.info_lines, &h.end, &g.args, &mut acc);
+        }
+        acc
+    });
+    for a in res {
+        run.acc.merge(a, &[]);
+    }
+}
+
+// ------------------------------------------------------------------------------------------------
+// C10: the real handler (clear() included) and the real search on the binary
+// ------------------------------------------------------------------------------------------------
+
+pub fn c10_blackbox(run: &mut Run, lost: &[Pos]) {
+    let tier = run.tier;
+    let seed = run.seed;
+    let (plain, hooked) = match (bb::build_plain(), bb::build_hooked()) {
+        (Ok(a), Ok(b)) => (a, b),
+        (Err(e), _) | (_, Err(e)) => {
+            run.acc.inconclusive.push(e);
+            return;
+        }
+    };
+    let h = ZobristHasher::create_zobrist_hasher();
+    let starts = crate::workload::start_positions(seed, 40).unwrap_or_default();
+    // part a on the hooked binary: several position commands per session, each record must
+    // describe that command alone
+    let sessions = tier.pick(16usize, 200);
+    let res = run_parallel(16, sessions, |sid| {
+        let mut acc = Acc::new();
+        let mut rng = Rng::stream(seed, 0xC10_0000 + sid as u64);
+        let mut s = match Sess::start(&hooked, SpawnOpts::default(), true) {
+            Ok(s) => s,
+            Err(e) => {
+                acc.inconclusive.push(format!("session start failed: {}", e));
+                return acc;
+            }
+        };
+        let n = 2 + rng.below(9) as usize;
+        let mut hists = Vec::new();
+        for i in 0..n {
+            let start = if rng.chance(1, 2) { Pos::start() } else { starts[rng.below(starts.len() as u64) as usize].clone() };
+            // related games make a missing clear() visible: same start, overlapping positions
+            let hist = if i > 0 && rng.chance(1, 3) { let prev: &History = &hists[i - 1]; rich_history(&prev.start, &mut rng, 200) } else { rich_history(&start, &mut rng, 300) };
+            s.position(&hist);
+            if rng.chance(1, 3) && has_legal_move(&hist.end) {
+                let mut g = s.go("", WATCHDOG);
+                if g.bestmove.is_none() {
+                    break;
+                }
+                s.settle(&mut g, WATCHDOG);
+            }
+            if rng.chance(1, 4) {
+                s.eng.send("ucinewgame");
+            }
+            hists.push(hist);
+        }
+        if !s.isready(WATCHDOG) {
+            acc.inconclusive.push("hooked session for the repetition record did not answer isready".into());
+            return acc;
+        }
+        s.eng.send("quit");
+        let _ = s.eng.wait_exit(Duration::from_secs(3));
+        let recs: Vec<LogRec> = s.read_log().into_iter().filter(|r| r.kind == "position_loaded").collect();
+        if recs.len() != hists.len() {
+            acc.inconclusive.push(format!("{} position_loaded records for {} position commands", recs.len(), hists.len()));
+            return acc;
+        }
+        for (i, (rec, hist)) in recs.iter().zip(hists.iter()).enumerate() {
+            acc.evaluations += 1;
+            let table = raw_table(&rec.detail);
+            if i > 0 {
+                acc.distinct.insert(hash64(&format!("sess|{}|{}", sid, i)));
+                acc.feature("second_or_later_position_in_session");
+            }
+            if let Some(diff) = compare_table(hist, &table, &h) {
+                acc.violation(
+                    format!("C10|session-record|{}", hash64(&hist.command())),
+                    format!("position command #{} of a session ('{}'): the repetition record is wrong: {}", i + 1, truncate(&hist.command(), 160), diff),
+                    json!({"kind": "session", "property": "C10", "script": hists.iter().take(i + 1).map(|x| x.command()).collect::<Vec<_>>()}),
+                );
+            }
+            // the board the handler left must be the game's final position (C04 through the real loop)
+            if let Some((f, key)) = raw_board(&rec.detail) {
+                let want = fields_of_pos(&hist.end);
+                if f != want || key != zobrist_from_scratch(&want, &h) {
+                    acc.count("position_loaded_board_mismatch_handed_to_C04", 1);
+                }
+            }
+        }
+        acc
+    });
+    for a in res {
+        run.acc.merge(a, &[]);
+    }
+    // part b on the plain binary
+    let n_b = tier.pick(24usize, 240);
+    let res = run_parallel(8, n_b, |j| {
+        let mut acc = Acc::new();
+        let mut rng = Rng::stream(seed, 0xC10_8000 + j as u64);
+        let base = &lost[j % lost.len()];
+        let n = [2usize, 3, 4, 6][j / lost.len() % 4];
+        let cyc = match find_cycle(base, &mut rng) {
+            Some(c) => c,
+            None => return acc,
+        };
+        let mut moves = Vec::new();
+        let mut p = base.clone();
+        for _ in 0..n {
+            for m in cyc {
+                moves.push(m);
+                p = apply(&p, m);
+            }
+        }
+        let hist = History { start: base.clone(), moves, end: p };
+        let mut s = match Sess::start(&plain, SpawnOpts::default(), false) {
+            Ok(s) => s,
+            Err(e) => {
+                acc.inconclusive.push(format!("session start failed: {}", e));
+                return acc;
+            }
+        };
+        s.position(&hist);
+        let mut g = s.go(&slice_args(hist.end.stm, 40, &mut rng), WATCHDOG);
+        if g.bestmove.is_none() {
+            acc.inconclusive.push("C10 blackbox go not answered".into());
+            return acc;
+        }
+        s.settle(&mut g, WATCHDOG);
+        acc.evaluations += 1;
+        let mut last: HashMap<u64, (i64, String)> = HashMap::new();
+        let mut maxd = 0;
+        for l in &g.info_lines {
+            if let Ok(i) = parse_info(l, true) {
+                maxd = maxd.max(i.depth);
+                last.insert(i.depth, (score_key(&i.score), l.clone()));
+            }
+        }
+        acc.distinct.insert(hash64(&format!("bbdraw|{}|{}", base.to_fen(), n)));
+        acc.feature(&format!("blackbox_target_occurred_{}x", n));
+        for (d, (sc, l)) in &last {
+            if *d < maxd && *sc < 0 {
+                acc.violation(
+                    format!("C10|missed-draw-bb|{}|n{}|d{}", base.to_fen(), n, d),
+                    format!("real binary, {} after {} shuffle cycles: {} leads to a position that occurred {} times, yet completed depth {} ends with a negative score: {:?}", base.to_fen(), n, cyc[0], n, d, l),
+                    json!({"kind": "session", "property": "C10", "script": [hist.command(), g.args]}),
+                );
+            }
+        }
+        acc
+    });
+    for a in res {
+        run.acc.merge(a, &[]);
+    }
+}
